@@ -206,11 +206,14 @@ var relPool = []string{
 	"", "public.\xc3\xa9t\xc3\xa9", "public.a_very_long_table_name_that_goes_on_and_on_and_on_0123456789",
 }
 
-var plainExtra = []string{"a", "public", "public.", "PUBLIC.A", "public.a ", "public.b, public.a", "Quoted.Name"}
+var plainExtra = []string{"a", "public", "public.", "PUBLIC.A", "public.a ", "public.b, public.a", "Quoted.Name", "", " "}
 
 var rxPool = []string{
 	`^public\.a$`, `public\.a`, `^public\.`, `a`, `.*`, `^$`, `\.b`, `(?i)quoted`, `^public\.(a|b)$`,
 	`public.a, public.b`, `^"`, `,`, `^s2\.`, `customers$`, `\x{e9}`, `^public\.a(, |$)`, `[[:upper:]]`,
+	// blank entries (a trailing comma in WHITELIST_REGEX, --blacklist-regex ""): the empty pattern is a valid
+	// regexp that matches every relation, a blank one matches names with a space and multi-table lists
+	``, ` `, ``, `\t`,
 }
 
 var rxBad = []string{`[`, `(`, `a{2,1}`, `*a`, `\Q`, `(?P<n`}
@@ -342,7 +345,7 @@ func init() {
 		for i := 0; i < n; i++ {
 			cases = append(cases, genFilterCase(rng, rng.Intn(5) == 0))
 		}
-		rep.Rule = "corpus first, then seeded: 80% well-formed configurations (whitelist/blacklist x plain/regex, 0-3 items from pools of schema-qualified, quoted, multi-table TRUNCATE, empty, non-ASCII relations and near-misses; regexps anchored/unanchored/case-insensitive), 20% adversarial (regexps that do not compile -> nil *Regexp, regexp-looking items in plain lists). Streams: 1-4 transactions, 0-5 changes each, 10% lost COMMIT. Non-trivial: not pass-through and at least one change forwarded and one dropped (or a panic); distinct by (config, stream)."
+		rep.Rule = "corpus first, then seeded: 80% well-formed configurations (whitelist/blacklist x plain/regex, 0-3 items from pools of schema-qualified, quoted, multi-table TRUNCATE, empty, non-ASCII relations and near-misses; regexps anchored/unanchored/case-insensitive, the empty and the blank pattern; empty and blank entries in plain lists), 20% adversarial (regexps that do not compile -> nil *Regexp, regexp-looking items in plain lists). Streams: 1-4 transactions, 0-5 changes each, 10% lost COMMIT. Non-trivial: not pass-through and at least one change forwarded and one dropped (or a panic); distinct by (config, stream)."
 		var sb strings.Builder
 		sb.WriteString("From Bifrost.model Require Import Base Filter.\nOpen Scope string_scope.\nDefinition cases : list fcase := [\n")
 		seen := map[string]bool{}
